@@ -1,5 +1,5 @@
 ; pem.smt2 - C17/C14: what encoding/pem.Decode finds in a byte string, and the scan ReadPem performs over it
-; requires fs.smt2 strings.smt2
+; requires fs.smt2 strings.smt2 x509.smt2
 (declare-fun hasPem (Bytes) Bool)             ; pem.Decode finds a block
 (declare-fun pemType (Bytes) String)          ; its type line
 (declare-fun pemBody (Bytes) Bytes)           ; its decoded body
@@ -21,8 +21,6 @@
 (assert (forall ((t String) (b Bytes) (r Bytes)) (! (and (hasPem (bcat (pemText t b) r)) (= (pemType (bcat (pemText t b) r)) t)
   (= (pemBody (bcat (pemText t b) r)) b) (= (pemRest (bcat (pemText t b) r)) r)) :pattern ((bcat (pemText t b) r)))))
 ; asn1.Unmarshal as the inverse of asn1.Marshal on what Marshal produces (assumed), and the scan at the level of parsed values
-(declare-fun derParse (Bytes) Deep)
-(assert (forall ((d Deep)) (! (= (derParse (der d)) d) :pattern ((der d)))))
 (declare-const noDeep Deep)
 (define-fun-rec pemLastD ((d Bytes) (kind Int) (acc Deep)) Deep
   (ite (not (hasPem d)) acc (pemLastD (pemRest d) kind (ite (= (pemKind (pemType d)) kind) (derParse (pemBody d)) acc))))
